@@ -417,3 +417,41 @@ def fold_table(idx, cls, meth, member_key, kind="all", source="self.results", so
                 desc = [f"{member_key}={v}, {nl} collected line(s)" for v, nl in combo]
                 return fi, False, f"members [{'; '.join(desc)}]: {cls}.{meth} gives {[p.result for p in ps][:2]}, documented {want!r} ({'conjunction' if kind == 'all' else 'sum'} over every member)", n_rows
     return fi, True, f"{n_rows} member lists", n_rows
+
+
+def resolve_local(fi, expr, depth=3):
+    """copy propagation for wiring checks: a local name assigned exactly once in the function (not a parameter, not a loop target) stands
+    for the expression assigned to it, so `d = self.delimiter; Reader(delimiter=d)` reads as `delimiter=self.delimiter`"""
+    node = fi.node if hasattr(fi, "node") else fi
+    for _ in range(depth):
+        if not isinstance(expr, ast.Name):
+            break
+        params = {a.arg for a in node.args.args + node.args.kwonlyargs + node.args.posonlyargs}
+        if expr.id in params:
+            break
+        assigns = []
+        other = False
+        for n in walk_no_nested(node):
+            if isinstance(n, ast.Assign):
+                for t in n.targets:
+                    if isinstance(t, ast.Name) and t.id == expr.id:
+                        assigns.append(n.value)
+                    elif isinstance(t, (ast.Tuple, ast.List)) and any(isinstance(x, ast.Name) and x.id == expr.id for x in ast.walk(t)):
+                        other = True
+            elif isinstance(n, (ast.AugAssign, ast.AnnAssign)) and isinstance(n.target, ast.Name) and n.target.id == expr.id:
+                other = True
+            elif isinstance(n, (ast.For, ast.comprehension)) and any(isinstance(x, ast.Name) and x.id == expr.id for x in ast.walk(n.target)):
+                other = True
+            elif isinstance(n, ast.With):
+                for it in n.items:
+                    if it.optional_vars is not None and any(isinstance(x, ast.Name) and x.id == expr.id for x in ast.walk(it.optional_vars)):
+                        other = True
+        if other or len(assigns) != 1:
+            break
+        expr = assigns[0]
+    return expr
+
+
+def kw_text(fi, call):
+    """keyword arguments of a call as source text, local single-assignment names resolved"""
+    return {k.arg: unparse(resolve_local(fi, k.value)) for k in call.keywords if k.arg}
